@@ -171,3 +171,9 @@ package transport
 // ---- C16: telnet leaves no write deadline armed on the socket (every later write is judged on its own) ------------------
 //@ func (*Telnet).Open [C16]
 //@   ensures #no-write-deadline-is-left-armed result == nil ==> !wdl
+
+// ---- C14: the ssh process is started with exactly the argv of buildOpenArgs (plus `-s netconf` for NETCONF) -------------
+//@ func (*System).open [C14]
+//@   at call! Command#1 assert #the-ssh-process-gets-the-computed-argv arg0 == t.OpenBin && (len(old(t.OpenArgs)) == 0 ==> arg1 === sysArgv(t, a)) && (len(old(t.OpenArgs)) != 0 ==> arg1 === old(t.OpenArgs))
+//@ func (*System).openNetconf [C14]
+//@   at call! Command#1 assert #the-ssh-process-gets-the-computed-argv-and-the-netconf-subsystem arg0 == t.OpenBin && (len(old(t.OpenArgs)) == 0 ==> arg1 === sysArgv(t, a) ++ strs("-s", "netconf")) && (len(old(t.OpenArgs)) != 0 ==> arg1 === old(t.OpenArgs) ++ strs("-s", "netconf"))
